@@ -1,4 +1,6 @@
 import Feox.Proto.Disk
+import Feox.Proto.Txn
+import Feox.Proto.Alloc
 /-!
 # C03 — any crash leaves a file that reopens to authentic, untorn contents
 
@@ -91,5 +93,57 @@ def demoDisk : Disk := fun b =>
 example : scan demoDisk 22 6 16 = some [(16, 7, 2)] := by decide
 -- a torn rewrite of blocks 18..19 under an intent journal is invisible to recovery
 example : scan (maskRun (fun b => if b = 18 then .junk else demoDisk b) 18 20) 22 6 16 = some [(16, 7, 2)] := by decide
+
+/-! ### from the transaction theorems to every crash point of a device trace -/
+
+/-- **At every point of a device trace that follows the journal discipline, every crash image shows
+recovery the last synced disk under the old or the new journal** — whatever subset, order or
+tearing of the un-synced writes the crash left, and whether or not the journal slot write in
+flight landed.  (`Txn.step?` is run on every recorded trace: the store's and recovery's own.)
+Together with the transaction theorems above — which say what the scan returns from a synced disk
+under an active or a clear journal — this covers every crash point, not the sampled ones. -/
+theorem every_crash_point (d : Disk) (evs : List Txn.Ev) (st : Txn.St)
+    (h : evs.foldlM Txn.step? { disk := d } = some st) (c : Disk) (j : Txn.Runs) (hc : Txn.CrashImage st c j) :
+    Txn.view c j = Txn.view st.disk j :=
+  Txn.crash_view_run d evs st h c j hc
+
+/-- with a clear journal on the device, nothing in the data area was un-synced: the image *is* the
+synced disk (the journal is cleared last) -/
+theorem clear_journal_is_quiescent (d : Disk) (evs : List Txn.Ev) (st : Txn.St)
+    (h : evs.foldlM Txn.step? { disk := d } = some st) (c : Disk) (hc : Txn.CrashImage st c [])
+    (hclear : st.jdur = []) : c = st.disk :=
+  Txn.clear_journal_means_synced (Txn.run_inv evs _ st (Txn.inv_init d) h) c hc hclear
+
+/-- one run `[s, e)` in the journal: the view is the `maskRun` the transaction theorems speak about -/
+theorem view_single_run (d : Disk) (s e : Nat) : Txn.view d [(s, e)] = maskRun d s e := by
+  funext b
+  simp only [Txn.view, maskRun, List.find?_cons, List.find?_nil, Txn.covers]
+  by_cases hb : s ≤ b ∧ b < e
+  · simp [hb.1, hb.2]
+  · have : (decide (s ≤ b) && decide (b < e)) = false := by
+      simp only [Bool.and_eq_false_iff, decide_eq_false_iff_not]
+      by_cases h1 : s ≤ b
+      · right; exact fun h2 => hb ⟨h1, h2⟩
+      · left; exact h1
+    simp [this, hb]
+
+/-! ### the hypothesis `MarkOK` and the allocation protocol (finding F7) -/
+
+/-- **Writing a record over the front of a free run keeps every marker's span free of records** —
+whatever the markers of the run claimed.  (`allocate_sectors` hands out prefixes of maximal free
+runs; since the fix 2dcc3ae a batch writes or journals its extents before any other batch can
+allocate, so every write is of this kind.) -/
+theorem allocation_from_the_front_keeps_spans {d : Disk} {lo hi s n : Nat} {g : Gen} (hok : Alloc.MarkOKAll d lo hi)
+    (hprefix : s = lo ∨ ¬ FLs d (s - 1)) : Alloc.MarkOKAll (Alloc.writeRec d s n g) lo hi :=
+  Alloc.write_prefix_keeps_markOK hok hprefix
+
+/-- a record written *behind* an unwritten block of the same run (two interleaved batches before the
+fix; an extent handed back unscrubbed) sits inside the span of the stale head, and the scan jumps
+over it although it is intact -/
+theorem interleaved_batches_lose_a_record :
+    Alloc.MarkOKAll Alloc.staleHead 16 24 ∧ ¬ Alloc.MarkOKAll (Alloc.writeRec Alloc.staleHead 18 1 9) 16 24 ∧
+    scan (Alloc.writeRec Alloc.staleHead 18 1 9) 24 8 16 = some [(16, 1, 1)] ∧
+    Intact (Alloc.writeRec Alloc.staleHead 18 1 9) 18 9 1 :=
+  ⟨Alloc.staleHead_ok, Alloc.write_inside_run_breaks_markOK, Alloc.skipped_by_the_scan.1, Alloc.skipped_by_the_scan.2⟩
 
 end Feox.C03
